@@ -2,6 +2,7 @@ import Uom.Proofs.OpsExact
 import Uom.Proofs.FlConvIdentity
 import Uom.Proofs.BodyEq.Cmp
 import Uom.Proofs.FloatOps
+import Uom.Proofs.OpsOracleSound
 /-!
 # C10 — equality, ordering and hashing of quantities are mutually coherent
 
@@ -111,6 +112,23 @@ theorem eq_mixed (f : Fmt) (hp : 1 ≤ f.p) (l r a b : Fl) (H : Proofs.ChangeBas
     |a.toRat - b.toRat * r.toRat / l.toRat| ≤
       ((1 - Proofs.uro f) ^ (-(2 : ℤ)) - 1) * |b.toRat * r.toRat / l.toRat| :=
   Proofs.feq_mixed_sound hp H ha h
+
+/-! ### the executable comparison oracle accepts the model, for every input
+
+The comparison clauses of `oracleBinFl` (exact order of the physical magnitudes outside a band of
+`4u·max(|A|,|B|)`; no band at all when the base units coincide) never reject what the model computes. -/
+theorem oracle_accepts_comparisons (f : Fmt) (hf : f.WF) (h4 : 4 ≤ f.p) (hw : f.p < f.w)
+    (hexp : f.emax = f.emin + ((2 ^ (f.w - f.p) : Nat) : Int) - 3) (name : String) (l r a b : Fl)
+    (hca : Fl.Canonical f a) (hcb : Fl.Canonical f b) (hcl : Fl.Canonical f l) (hcr : Fl.Canonical f r)
+    (op : RawBin) (bres : Bool) (hres : rawBin (flTy name f) op a (changeBase (flS f) l r b) = .ok (.bool bres)) (why : String) :
+    oracleBinFl f op l r a b (if bres = true then "1" else "0") ≠ .fail why :=
+  Proofs.oracleBinFl_cmp_sound name hf h4 hw hexp hca hcb hcl hcr op bres hres why
+
+theorem oracle_accepts_partial_cmp (f : Fmt) (hf : f.WF) (h4 : 4 ≤ f.p) (hw : f.p < f.w)
+    (hexp : f.emax = f.emin + ((2 ^ (f.w - f.p) : Nat) : Int) - 3) (name : String) (l r a b : Fl)
+    (hca : Fl.Canonical f a) (hcb : Fl.Canonical f b) (hcl : Fl.Canonical f l) (hcr : Fl.Canonical f r) (why : String) :
+    oracleBinFl f .pcmp l r a b (Res.show (flTy name f) (.ord (Fl.cmp a (changeBase (flS f) l r b)))) ≠ .fail why :=
+  Proofs.oracleBinFl_pcmp_sound name hf h4 hw hexp hca hcb hcl hcr why
 
 /-! ### tie to the source: the function bodies regenerated from /repo/src on this run
 
